@@ -97,7 +97,8 @@ Print Assumptions ac_suffix_search_total.
 
 (* ================================================================================================ *)
 (* ac_first_occurrence: with pairwise distinct ids the final dict lists the same ids in the same     *)
-(* order; the first entry carrying a raw name keeps it, a later one gets  name ++ "__" ++ str(j)    *)
+(* order; the first entry carrying a raw name keeps it, a later one gets  name ++ "__" ++ str(j),   *)
+(* j >= 1, which is none of the names listed by a name line anywhere in the file (reserved_of)      *)
 (* ================================================================================================ *)
 Theorem ac_first_occurrence_ord : forall m0 lines i, alt_names m0 = [] ->
   ids_distinct alt_name_prefix lines = true ->
@@ -107,7 +108,8 @@ Theorem ac_first_occurrence_ord : forall m0 lines i, alt_names m0 = [] ->
   map fst finals = map fst raws /\
   forall pre a r post, raws = pre ++ (a, r) :: post ->
     (~ In r (map snd pre) -> assoc_get N.eqb a finals = Some r) /\
-    (In r (map snd pre) -> exists j, (1 <= j)%N /\ assoc_get N.eqb a finals = Some (suffixed r j)).
+    (In r (map snd pre) -> exists j, (1 <= j)%N /\ ~ In (suffixed r j) (reserved_of alt_name_prefix lines) /\
+                            assoc_get N.eqb a finals = Some (suffixed r j)).
 Proof. exact Proofs.Autocorrect.ac_first_occurrence_ord. Qed.
 Print Assumptions ac_first_occurrence_ord.
 
@@ -119,16 +121,24 @@ Theorem ac_first_occurrence_cat : forall m0 lines i, alt_names m0 = [] ->
    map fst finals = map fst raws /\
    forall pre a r post, raws = pre ++ (a, r) :: post ->
      (~ In r (map snd pre) -> assoc_get N.eqb a finals = Some r) /\
-     (In r (map snd pre) -> exists j, (1 <= j)%N /\ assoc_get N.eqb a finals = Some (suffixed r j))) /\
+     (In r (map snd pre) -> exists j, (1 <= j)%N /\ ~ In (suffixed r j) (reserved_of alt_name_prefix lines) /\
+                            assoc_get N.eqb a finals = Some (suffixed r j))) /\
   (ids_distinct cat_name_prefix lines = true ->
    let raws := raw_names cat_name_prefix lines in
    let finals := CatIO.c_cat_names i in
    map fst finals = map fst raws /\
    forall pre a r post, raws = pre ++ (a, r) :: post ->
      (~ In r (map snd pre) -> assoc_get N.eqb a finals = Some r) /\
-     (In r (map snd pre) -> exists j, (1 <= j)%N /\ assoc_get N.eqb a finals = Some (suffixed r j))).
+     (In r (map snd pre) -> exists j, (1 <= j)%N /\ ~ In (suffixed r j) (reserved_of cat_name_prefix lines) /\
+                            assoc_get N.eqb a finals = Some (suffixed r j))).
 Proof. exact Proofs.Autocorrect.ac_first_occurrence_cat. Qed.
 Print Assumptions ac_first_occurrence_cat.
+
+(* every name listed by the header is among the reserved names, so a generated name is never a raw name *)
+Theorem raw_names_reserved : forall prefix lines r,
+  In r (map snd (raw_names prefix lines)) -> In r (reserved_of prefix lines).
+Proof. exact Proofs.Autocorrect.raws_reserved. Qed.
+Print Assumptions raw_names_reserved.
 
 (* the hypothesis on the ids cannot be dropped: a header that lists the SAME id twice with the same name
    renames that alternative (the dict entry is overwritten by X__1), so no entry keeps the raw name X *)
@@ -140,7 +150,8 @@ Theorem ac_first_occurrence_dup_id_refuted :
        map fst finals = map fst raws /\
        forall pre a r post, raws = pre ++ (a, r) :: post ->
          (~ In r (map snd pre) -> assoc_get N.eqb a finals = Some r) /\
-         (In r (map snd pre) -> exists j, (1 <= j)%N /\ assoc_get N.eqb a finals = Some (suffixed r j))).
+         (In r (map snd pre) -> exists j, (1 <= j)%N /\ ~ In (suffixed r j) (reserved_of alt_name_prefix lines) /\
+                            assoc_get N.eqb a finals = Some (suffixed r j))).
 Proof. exact Proofs.Autocorrect.ac_first_occurrence_dup_id_refuted. Qed.
 Print Assumptions ac_first_occurrence_dup_id_refuted.
 
